@@ -3,6 +3,8 @@
 probe, each run against the checks whose property anchors the file.  Modes:
   named    `if (X)`        -> `const bool verif_probe_guard = (X); if (verif_probe_guard)`
   demorgan `if (A && B)`   -> `if (!(!(A) || !(B)))`      (top-level && / || of the condition only)
+  flip     `if (a < b)`    -> `if (b > a)`                 (conditions that are one comparison)
+  negelse  `if (X) {A} else {B}` -> `if (!(X)) {B} else {A}`
 A probe that does not parse is skipped (reported as skip); any violation / incomplete / broken line is a FALSE ALARM of the checker.
 Scratch copies live under /tmp and are removed; /repo is never touched."""
 import concurrent.futures, json, os, re, shutil, subprocess, sys, tempfile
@@ -93,6 +95,48 @@ def rewrite(src, site):
                 if len(parts) >= 2:
                     return src[:o + 1] + '!(' + (' %s ' % other).join('!(%s)' % p.strip() for p in parts) + ')' + src[e:]
         return None
+    if mode == 'flip':
+        m = re.match(r'^\s*([^<>=!&|?]+?)\s*(==|!=|<=|>=|<|>)\s*([^<>=!&|?]+?)\s*$', cond, re.S)
+        if not m:
+            return None
+        fl = {'==': '==', '!=': '!=', '<': '>', '>': '<', '<=': '>=', '>=': '<='}[m.group(2)]
+        return src[:o + 1] + '%s %s %s' % (m.group(3).strip(), fl, m.group(1).strip()) + src[e:]
+    if mode == 'negelse':
+        # `if (X) { A } else { B }`  ->  `if (!(X)) { B } else { A }`   (braced bodies only)
+        def block_end(i):
+            while i < len(src) and src[i] in ' \t\r\n':
+                i += 1
+            if i >= len(src) or src[i] != '{':
+                return None, None
+            depth, j = 0, i
+            while j < len(src):
+                if src[j] == '{':
+                    depth += 1
+                elif src[j] == '}':
+                    depth -= 1
+                    if depth == 0:
+                        return i, j
+                elif src[j] in '"\'':
+                    q = src[j]
+                    j += 1
+                    while j < len(src) and src[j] != q:
+                        if src[j] == '\\':
+                            j += 1
+                        j += 1
+                elif src.startswith('//', j):
+                    j = src.find('\n', j)
+                j += 1
+            return None, None
+        a0, a1 = block_end(e + 1)
+        if a0 is None:
+            return None
+        m = re.match(r'\s*else\b', src[a1 + 1:])
+        if not m:
+            return None
+        b0, b1 = block_end(a1 + 1 + m.end())
+        if b0 is None:
+            return None
+        return src[:o + 1] + '!(' + cond + ')' + src[e:a0] + src[b0:b1 + 1] + src[a1 + 1:b0] + src[a0:a1 + 1] + src[b1 + 1:]
     raise SystemExit('unknown mode')
 
 
